@@ -4,5 +4,5 @@ From Verif Require Import Json Breaker CorrBreaker CorrMatch CorrLoc.
 Definition check_case (domain : string) (c : json) : json :=
   if String.eqb domain "breaker" then check_breaker c
   else if String.eqb domain "match" then check_match c
-  else if String.eqb domain "loc" then check_loc c
+  else if has_prefix "loc" domain then check_loc c
   else JObj [("ok", JBool false); ("why", JStr ("unknown domain " ++ domain))].
